@@ -551,8 +551,8 @@ impl Prop for History {
                 Stream::new("long", 800, 8000).asan(800),
                 Stream::new("corpus", 64, 1600).asan(64),
             ],
-            Which::NoStale => vec![Stream::new("random", 48000, 2400000).miri(6), Stream::new("exhaustive", 567, 567).miri(0)],
-            Which::Registry => vec![Stream::new("core", 16000, 800000).miri(4), Stream::new("bridge", 4000, 200000).miri(2)],
+            Which::NoStale => vec![Stream::new("random", 48000, 2400000).miri(12), Stream::new("exhaustive", 567, 567).miri(0)],
+            Which::Registry => vec![Stream::new("core", 16000, 800000).miri(8), Stream::new("bridge", 4000, 200000).miri(4)],
         }
     }
     fn floors(&self) -> Vec<(&'static str, u64, u64)> {
